@@ -33,6 +33,14 @@ def _self_lid(fn):
     return None
 
 
+def _is_ref_mut(mode):
+    # e.g. "BindingMode(Yes(Not, Mut), Not)"
+    if not mode.startswith("BindingMode(Yes("):
+        return False
+    inner = mode[len("BindingMode(Yes("):].split(")")[0]
+    return inner.split(",")[-1].strip() == "Mut"
+
+
 def direct_self_writes(fn):
     """{field: [node]} for direct writes / mutable borrows of self.<field> in fn's body."""
     out = {}
@@ -76,7 +84,8 @@ def direct_self_writes(fn):
                     for s in walk_k(n["pat"], "Struct"):
                         for f in s["fields"]:
                             for b in walk_k(f["pat"], "Binding"):
-                                if "Mut" in b.get("mode", "") and "Ref" in b.get("mode", "").split(",")[0] and "No" not in b.get("mode", "").split(",")[0]:
+                                # BindingMode(Yes(<pin>, Mut), <mutability>) is a `ref mut` binding
+                                if _is_ref_mut(b.get("mode", "")):
                                     out.setdefault(f["name"], []).append(n)
     return out
 
@@ -293,7 +302,20 @@ def r_pos(ctx, rep):
             calls += 1
             key = "%s|R-POS|column" % fn.name
             arg = c["args"][0]
-            uses_idx = any(n.get("res", {}).get("lid") in idx_lids for n in walk_k(arg, "Path"))
+            # follow let-bound locals back to their initialisers
+            exprs, seen = [arg], set()
+            uses_idx = False
+            while exprs:
+                e = exprs.pop()
+                for n in walk_k(e, "Path"):
+                    lid = n.get("res", {}).get("lid")
+                    if lid is None or lid in seen:
+                        continue
+                    seen.add(lid)
+                    if lid in idx_lids:
+                        uses_idx = True
+                    elif lid in inits:
+                        exprs.append(inits[lid])
             if uses_idx:
                 rep.holds("R-POS", key, loc(c), "the position handed to the cell deserializer depends on the column index")
             else:
